@@ -164,7 +164,9 @@ P["C09"] = dict(
              "ParsedParameters::new",
              "R-LOOP-RANK: every loop reachable from instantiation/apply and in the ellipsoid, angular, token, grid "
              "and coordinate modules has a ranking function",
-             "R-REC-GUARD: bounded recursion", "T-ELLPS(parse): every table string parsed with unwrap is valid f64 syntax"],
+             "R-REC-GUARD: bounded recursion", "T-ELLPS(parse): every table string parsed with unwrap is valid f64 syntax",
+             "R-STR-SLICE: every byte-range slice of a str cuts at char boundaries (full range, find()/len() derived "
+             "offsets, or a reviewed site)", "R-UNDERFLOW-GUARD: stack accesses are preceded by a depth test"],
     not_decided=["index arithmetic and slicing in general (455 clippy indexing sites; no bounds prover attempted)",
                  "arithmetic overflow", "stack depth in bytes"],
     level="Decides the named panic/hang mechanisms on all paths; does not decide absence of every possible panic.",
